@@ -47,20 +47,30 @@ Clauses(r) ==
       complete == np = Len(plan)
   IN [
   \* ------------------------------------------------------------- C05
-  C05_MaskExact      |-> \A i \in 1..np : PassMaskOK(r, r.passes[i]),
+  \* (a pass is "fuzzy" when a bound of its interval, computed from the
+  \* previous contact point, falls within rounding of a sample: not judged)
+  C05_MaskExact      |-> \A i \in 1..np :
+                            r.passes[i].fuzzy \/ PassMaskOK(r, r.passes[i]),
   C05_MaskInSegment  |-> \A i \in 1..np :
                             r.passes[i].mask \subseteq SegIdx(r.seg, r.segreq),
   \* (for contact-point-relative ranges the statement asks for an estimate
   \* on the whole segment followed by passes anchored at the previous
   \* contact point; HOW MANY of them is the implementation's business)
   C05_PassStructure  |->
-      IF r.mode = "rel"
-      THEN /\ (np > 0 => r.passes[1].kind = "whole")
-           /\ \A i \in 2..np : r.passes[i].kind = "anchored"
-           /\ (r.success => np >= 2)
-      ELSE /\ np <= Len(plan)
-           /\ \A i \in 1..np : r.passes[i].kind = plan[i]
-           /\ (r.success => complete),
+      CASE r.mode = "rel" ->
+             /\ (np > 0 => r.passes[1].kind = "whole")
+             /\ \A i \in 2..np : r.passes[i].kind = "anchored"
+             /\ (r.success => np >= 2)
+        [] r.mode = "edelta" ->
+             \* one optimiser run per depth of the grid that has enough
+             \* points, then the final one
+             /\ np <= Len(plan)
+             /\ \A i \in 1..(np - 1) : r.passes[i].kind = "scan"
+             /\ (r.success => (np >= 1 /\ r.passes[np].kind = "final"))
+        [] OTHER ->
+             /\ np <= Len(plan)
+             /\ \A i \in 1..np : r.passes[i].kind = plan[i]
+             /\ (r.success => complete),
   C05_FirstIsRequested |->
       (r.mode = "abs" /\ np > 0) => (r.passes[1].lo = r.req_lo /\ r.passes[1].hi = r.req_hi
                            /\ r.passes[1].zero = r.req_zero),
